@@ -22,10 +22,21 @@ out = []
 def leaves(m):
     names = m.get_nested_state_names()
     return [n for n in names if not m.get_state(n).states]
+def ev(fn):
+    try:
+        return bool(fn())
+    except BaseException as e:
+        return "raised " + type(e).__name__
 for t in leaves(mT):
     mT.set_state(t)
-    out.append(["tank_is_low", t, bool(F.tank_is_low())])
-    out.append(["tank_is_high", t, bool(F.tank_is_high())])
+    out.append(["tank_is_low", t, ev(F.tank_is_low)])
+    out.append(["tank_is_high", t, ev(F.tank_is_high)])
+    # the same question with a Tank that is slow to answer (busy with a sensor read): a guard that gives up and assumes an
+    # answer decides differently from the specification
+    w.frozen.add(T)
+    out.append(["tank_is_low", t, ev(F.tank_is_low), "slow"])
+    out.append(["tank_is_high", t, ev(F.tank_is_high), "slow"])
+    w.frozen.discard(T)
 for n in (0, 1, 2):
     F._Filtration__speed_standby = n
     out.append(["pump_stopped_in_standby", str(n), bool(F.pump_stopped_in_standby())])
@@ -36,6 +47,12 @@ for f in leaves(mF):
     out.append(["filtration_ready_for_heating", f, bool(H.filtration_ready_for_heating())])
     out.append(["filtration_is_wintering", f, bool(S.filtration_is_wintering())])
     out.append(["filtration_allow_swim", f, bool(S.filtration_allow_swim())])
+    w.frozen.add(F)
+    out.append(["filtration_allow_heating", f, ev(H.filtration_allow_heating), "slow"])
+    out.append(["filtration_ready_for_heating", f, ev(H.filtration_ready_for_heating), "slow"])
+    out.append(["filtration_is_wintering", f, ev(S.filtration_is_wintering), "slow"])
+    out.append(["filtration_allow_swim", f, ev(S.filtration_allow_swim), "slow"])
+    w.frozen.discard(F)
 # Tank.force_empty: every (previous, value, halted) combination
 import itertools
 for prev, val, halted in itertools.product([False, True], repeat=3):
@@ -90,12 +107,14 @@ def correspondence(chk, only=None):
         return
     if only:
         real = [r for r in real if r[0] in only]
-    lines = [f"{g} {arg}" for (g, arg, v) in real]
+    lines = [f"{r[0]} {r[1]}" for r in real]
     model = lean.driver("Poupool/Drivers/Guards.lean", lines)
-    bad = [(g, arg, v, m) for (g, arg, v), m in zip(real, model) if (str(v).lower() if isinstance(v, bool) else str(v)) != m]
-    dist = {}
+    slow = {i for i, r in enumerate(real) if len(r) > 3}
+    real = [r[:3] for r in real]
+    bad = [(g + (" [the asked controller is slow to answer]" if i in slow else ""), arg, v, m) for i, ((g, arg, v), m) in enumerate(zip(real, model)) if (str(v).lower() if isinstance(v, bool) else str(v)) != m]
+    dist = {"asked controller slow to answer": len(slow)}
     for (g, arg, v) in real:
         dist[g] = dist.get(g, 0) + 1
     chk.correspondence("guard methods (REAL, the other controller set to EVERY phase / the setting to every value; __start_backwash on boundary dates) vs Model/Guards.lean", len(real), len(bad), distribution=dist, detail=bad[:5] or None)
     for (g, arg, v, m) in bad[:3]:
-        chk.violation(f"guard:{g}:{arg.split(' ')[0] if g != 'start_backwash' else 'date'}", f"the real guard {g}({arg}) returns {v}, the specification of the guard says {m}", {"kind": "guard", "guard": g, "arg": arg, "real": v, "model": m})
+        chk.violation(f"guard:{g.split(' ')[0]}:{arg.split(' ')[0] if g != 'start_backwash' else 'date'}", f"the real guard {g}({arg}) returns {v}, the specification of the guard says {m}", {"kind": "guard", "guard": g, "arg": arg, "real": v, "model": m})
